@@ -36,6 +36,7 @@ func RunHarnessK(prog *ssa.Program, fn *ssa.Function, x *Explorer, params map[st
 	x.Harness = fn.Name()
 	x.Params = params
 	res := &Result{Harness: fn.Name(), Params: params, Exhaustive: true}
+	x.IsKnown = isKnown
 	unknown := 0
 	for {
 		x.beginPath()
@@ -70,7 +71,9 @@ func RunHarnessK(prog *ssa.Program, fn *ssa.Function, x *Explorer, params map[st
 		}
 		if end == EndViolation && len(x.Violations) > 0 {
 			v := &x.Violations[len(x.Violations)-1]
-			if isKnown != nil && isKnown(v) {
+			if v.Known {
+				// (already classified when the path continued past it)
+			} else if isKnown != nil && isKnown(v) {
 				v.Known = true
 				res.KnownCount++
 				key := v.AssertID + "|" + strings.Join(v.Tags, ",")
@@ -98,6 +101,7 @@ func RunHarnessK(prog *ssa.Program, fn *ssa.Function, x *Explorer, params map[st
 			break
 		}
 	}
+	res.KnownCount += x.KnownContinued
 	res.Stats = x.Stats
 	res.Violations = x.Violations
 	res.Inconclusive = x.Stats.Inconclusive
